@@ -95,7 +95,7 @@ func genC07(g *G, n int, out io.Writer, full bool) {
 	// nesting depth 1..D
 	depths := []int{1, 2, 3, 4, 5, 6, 7, 8}
 	if full {
-		depths = append(depths, 10, 12, 14, 16, 20, 27, 30)
+		depths = append(depths, 9, 10) // OPA's compile time grows ~3.7x per level (4 s at 8, 58 s at 10)
 	}
 	for _, d := range depths {
 		r := Rule{Atom: ip(0)}
